@@ -34,7 +34,8 @@ PID = 'C02'
 LEAN_MODULES = ['ThermoVerif.Props.C02']
 RULE = ('60 % single-mix cases, 40 % histories (3–6 further operations on ONE receiver: mix again with the receiver among the '
         'inlets, assign H / h / S, separate a share — each step judged by the oracles); flags vle=True 14 %, energy_balance=False 14 %; '
-        'MultiStream receivers / inlets over gl, ls, gs, gls; cases of 1–5 inlets (single-phase l/g streams, two-phase MultiStreams, empty streams, Heat/Power objects, None), '
+        'MultiStream receivers / inlets over gl, ls, gs, gls, lL, glL and single-phase L streams (conserve_phases 50 % when one is present); '
+        '7 % of cases with trace flows (1e-9..1e-8 kmol/hr in all, non-empty); cases of 1–5 inlets (single-phase l/g streams, two-phase MultiStreams, empty streams, Heat/Power objects, None), '
         'T 250–500 K, P 1e4–1e7 Pa (log-uniform), 5 chemicals with random flows; receiver fresh / multi-phase / one of the inlets; '
         'Q = ΔT·ΣC with ΔT ∈ ±40 K, 0, or huge (fallback branches); conserve_phases 10 %; then separate_out of a sub-stream '
         '(equal shares of {exactly the parent\'s T, another T} x {same phase, opposite phase}; 15 % at another pressure) and '
@@ -48,6 +49,10 @@ ASSUMPTIONS = [
     'integral carries float noise of ≈1e-3 J/mol/K) '
     'and dX/dT > 0',
     'convergence of the Aitken / secant iteration inside flexsolve is monitored, not proved',
+    'domain: a step judged by the oracle starts from streams with 150 K ≤ T ≤ 1500 K; a state outside (left by an earlier failing '
+    'step of a history) makes the following steps correspondence-only (dom=0, tag start-out-of-domain); a solver answer outside '
+    'that range is a hypothesis violation (hyp=range) that both sides report, and the step is failed by the oracle '
+    '(set:readback / set:left-domain, or the known signature where the entropy model is not monotone)',
     'H_strictMono / S_strictMono hypothesis (monitored where the setter raised on a reachable target): the real property function '
     'is strictly increasing over 17 points spaced 2e-6 K around the solution; where it is not (thermo liquid entropy noise) the '
     'failure is reported under the signature set:raised:S:model-not-monotone',
@@ -100,7 +105,7 @@ def setup():
                 if entropy: slope /= T
             except BaseException:
                 resid, slope = float('nan'), float('nan')
-            rec.append(('ok', _phkey_single(phase), T, resid, slope))
+            rec.append(('ok', _phkey_single(phase), T, resid, slope, float(target)))
             return T
         solver._verif = True
         setattr(cls, name, solver)
@@ -123,7 +128,7 @@ def setup():
                 if entropy: slope /= T
             except BaseException:
                 resid, slope = float('nan'), float('nan')
-            rec.append(('ok', _phkey_multi(phase_mol), T, resid, slope))
+            rec.append(('ok', _phkey_multi(phase_mol), T, resid, slope, float(target)))
             return T
         solver._verif = True
         setattr(cls, name, solver)
@@ -214,7 +219,11 @@ def micro_monotone(s, kind, x, phase):
         if value_at(s, kind, mid, phase) - x <= 0: lo = mid
         else: hi = mid
     vals = [value_at(s, kind, lo + j * 2e-6, phase) for j in range(-8, 9)]
+    _TSTAR[0] = lo
     return all(b > a for a, b in zip(vals, vals[1:]))
+
+
+_TSTAR = [None]      # the solution temperature located by the last micro_monotone call
 
 
 def sol_tokens(rec):
@@ -232,6 +241,29 @@ def last_slope(rec):
     return 0.0
 
 
+T_DOM = (150.0, 1500.0)      # outside it the property models extrapolate; a state there is outside the property's domain
+
+
+def indom(T): return T == T and T_DOM[0] <= T <= T_DOM[1]
+
+
+def hyp_range(rec):
+    """the part of the hypothesis monitor both sides evaluate: a solver answer outside the physical domain"""
+    for i, r in enumerate(rec):
+        if r[0] == 'ok' and not indom(r[2]): return f'range@{i}'
+    return 'ok'
+
+
+def last_call_unsound(rec, rtol):
+    """the solver itself is at fault: its last call raised, or returned a temperature whose residual (re-evaluated with the
+    real property function against the target of THAT call) is out of tolerance"""
+    if not rec: return False
+    r = rec[-1]
+    if r[0] == 'ex': return True
+    allowance = 1e-5 * abs(r[4]) if indom(r[2]) and r[4] == r[4] else 0.0
+    return not (abs(r[3]) <= rtol * abs(r[5]) + allowance)
+
+
 RTOL = {'H': 1e-6, 'h': 1e-6, 'S': 2e-5, 'Sg': 1e-6}     # 'Sg': entropy of a stream that is and stays a gas
 
 
@@ -239,7 +271,7 @@ def answer(s, out, Hread, rec, tol, dom=True):
     """the implementation's answer line; `dom=0` marks an operation outside the property's quantifier (absurd
     target / heat, used only to reach the fallback branches): the value read back and the solver hypothesis are then not compared"""
     return (f'out={out} ph={ph_of(s)} T={fbits(s.T)} P={fbits(s.P)} e={1 if s.isempty() else 0} H={fbits(Hread)} '
-            f'calls={len(rec)} q={",".join(r[1] for r in rec) if rec else "-"} hyp=ok tolH={fbits(tol)} dom={1 if dom else 0}')
+            f'calls={len(rec)} q={",".join(r[1] for r in rec) if rec else "-"} hyp={hyp_range(rec)} tolH={fbits(tol)} dom={1 if dom else 0}')
 
 
 # ----------------------------------------------------------------------------------------------
@@ -338,7 +370,7 @@ def run_ops(ops):
             expected = (sum(Hs) + Q + heat) if N else 0.0
             Hread = read(recv, 'H')
             Crecv = read(recv, 'C')
-            tol = (1e-6 * max([abs(expected), abs(Q), abs(heat)] + [abs(h) for h in Hs]) + 1e-9
+            tol = (1e-6 * max([abs(expected), abs(Q), abs(heat)] + [abs(h) for h in Hs]) + 1e-12
                    + 1e-5 * (last_slope(rec) if rec else (Crecv if vle and Crecv == Crecv else 0.0)))
             if vrec:
                 v = vrec[-1]
@@ -349,13 +381,29 @@ def run_ops(ops):
                 vres, vs = '-', '-'
             model_in.append(head + f' vres={vres} sol={sol_tokens(rec)}')
             energy_claim = eb and N >= 1               # without the energy balance the property makes no enthalpy claim
+            start_ok = all(indom(i.T) for i in streams) if eb else indom(T0r)
+            if vle and any('L' in ph_of(i) or 'S' in ph_of(i) for i in streams):
+                # `stream.vle(...)` works on the rows 'g' and 'l' only: material labelled 'L' (or 'S') is left out of the flash,
+                # which then does not reproduce the enthalpy it was asked for.  That is the flash's contract (C04), the
+                # hypothesis VleSound of mix_vle_energy is not met: no verdict here, the step is correspondence-only.
+                start_ok = False
+                tags.add('mix:vle:second-liquid-phase-not-judged')
+            if not start_ok:
+                # an inlet (or, without energy balance, the receiver) is in a state outside the property's domain,
+                # left there by an earlier step of the history: correspondence only, no verdict on this step
+                tags.add('mix:start-out-of-domain')
             vx = bool(vrec) and vrec[-1][0] == 'ex'    # the flash raised: the state it left half-way is not compared
-            outs.append(answer(recv, out, Hread, rec, tol, mode != 'huge' and (energy_claim or N == 0)) + f' vs={vs} vx={1 if vx else 0}')
+            outs.append(answer(recv, out, Hread, rec, tol, mode != 'huge' and start_ok and (energy_claim or N == 0))
+                        + f' vs={vs} vx={1 if vx else 0}')
             tags.add(f'mix:N={min(N, 2)}' + (':Q' if (Q or heat) else '') + (':cp' if cp else '') + (':alias' if alias else '')
                      + (':multi-recv' if is_multi(recv) else '') + (':vle' if vle else '') + ('' if eb else ':no-eb'))
+            if streams and sum(i.F_mol for i in streams) < 1e-6: tags.add('mix:trace-flow')
+            if any('L' in ph_of(i) for i in streams) and any('l' in ph_of(i) for i in streams): tags.add('mix:l+L-inlets')
             if N >= 2 and len({i.T for i in streams}) > 1 or (N >= 1 and (Q or heat)): nontrivial = True
             # ---- oracle: the property text on the real objects
-            if not eb:
+            if not start_ok:
+                pass
+            elif not eb:
                 # no energy balance: the temperature is not touched; the pressure only by a mix of two or more
                 if out == 'ok':
                     if recv.T != T0r:
@@ -389,6 +437,7 @@ def run_ops(ops):
             head = (f'sep r={st_of(a)} Hs={fbits(Ha)} Ho={fbits(Hb)} none={1 if b is None else 0} '
                     f'oe={1 if b_empty else 0} same={1 if a is b else 0}')
             Ta, Pa, pha = a.T, a.P, ph_of(a)
+            start_ok = indom(a.T) and (b is None or b.isempty() or indom(b.T))
             rec = []; _REC = rec
             out = 'ok'
             try:
@@ -399,16 +448,18 @@ def run_ops(ops):
                 _REC = None
             expected = Ha if (b is None or b_empty) else (0.0 if a is b else Ha - Hb)
             Hread = read(a, 'H')
-            tol = 1e-6 * max(abs(Ha), abs(Hb)) + 1e-5 * last_slope(rec) + 1e-9
+            tol = 1e-6 * max(abs(Ha), abs(Hb)) + 1e-5 * last_slope(rec) + 1e-12
             model_in.append(head + f' ea={1 if a.isempty() else 0} kind=H sol={sol_tokens(rec)}')
-            outs.append(answer(a, out, Hread, rec, tol))
+            outs.append(answer(a, out, Hread, rec, tol, start_ok))
             tags.add('sep' + (':none' if b is None else ':empty-other' if b_empty else ':same' if a is b else
                               f':{"sameT" if b.T == Ta else "otherT"}:{"samephase" if ph_of(b) == pha else "otherphase"}'))
             if (b is None or b_empty) and (out != 'ok' or rec or a.T != Ta or a.P != Pa or ph_of(a) != pha):
                 fail('sep:noop', f'separate_out of {"None" if b is None else "an empty stream"} is not a no-op: outcome {out}, '
                                  f'{len(rec)} solver call(s), T {Ta!r} → {a.T!r}, P {Pa!r} → {a.P!r}, phase {pha} → {ph_of(a)}')
             if b is not None and a is not b and not b.isempty(): nontrivial = True
-            if out == 'ok':
+            if not start_ok:
+                tags.add('sep:start-out-of-domain')      # a state outside the property's domain: no verdict on this step
+            elif out == 'ok':
                 if not abs(Hread - expected) <= tol:
                     fail('sep:energy', f'after separate_out H = {Hread!r}, H_before − other.H = {expected!r}')
             else:
@@ -425,6 +476,8 @@ def run_ops(ops):
             reachable = False
             if mode == 'zero':
                 x = 0.0
+                lo, hi = value_at(s, kind, T_LO), value_at(s, kind, T_HI)
+                reachable = (not empty) and lo == lo and hi == hi and lo <= 0.0 <= hi     # e.g. H of a liquid (0 at 298.15 K)
             elif mode == 'abs':
                 x = th
             elif mode == 'cur':
@@ -450,18 +503,41 @@ def run_ops(ops):
                 _REC = None
             back = read(s, kind) if not s.isempty() or kind != 'h' else 0.0
             tk = 'Sg' if kind == 'S' and ph0 == 'g' and ph_of(s) == 'g' else kind      # tolerance class
-            tol = RTOL[tk] * abs(x) + 1e-5 * last_slope(rec) + 1e-9
+            left_dom = out == 'ok' and bool(rec) and not indom(s.T)     # the assignment "succeeded" at an unphysical temperature
+            start_ok = indom(T0)                                         # else: a state an earlier step left outside the domain
+            tol = RTOL[tk] * abs(x) + (1e-5 * last_slope(rec) if not left_dom else 0.0) + 1e-12
             model_in.append(head + f' kind={tk} sol={sol_tokens(rec)}')
-            outs.append(answer(s, out, back, rec, tol, mode not in ('abs', 'zero')))      # 0 is an arbitrary target as well
+            in_q = mode in ('lerp', 'cur', 'cross') or (mode == 'zero' and reachable)      # inside the property's quantifier
+            outs.append(answer(s, out, back, rec, tol, in_q and start_ok))
             flipped = ph_of(s) != ph0
+            if not empty and s.F_mol < 1e-6: tags.add(f'set:{kind}:trace-flow')
+            if is_multi(s) and 'l' in s.phases and 'L' in s.phases and not s.imol['l'].sum() == 0 and not s.imol['L'].sum() == 0:
+                tags.add(f'set:{kind}:two-liquid-phases')
             tags.add(f'set:{kind}:{mode}:{"multi" if is_multi(s) else ph0}' + (':flipped' if flipped else '')
                      + (':' + out if out != 'ok' else ''))
             if abs(s.T - T0) > 1e-3: nontrivial = True
-            if empty or mode in ('abs', 'zero'): continue      # the property speaks about non-empty streams and reachable targets
+            if empty or not in_q: continue                     # the property speaks about non-empty streams and reachable targets
+            if not start_ok:
+                tags.add('set:start-out-of-domain'); continue  # the stream was outside the property's domain already
+            readback_ok = abs(back - x) <= tol
+            if out == 'ok' and (not readback_ok or (left_dom and mode in ('lerp', 'cur', 'zero'))):
+                # The value read back differs, or a target between the stream's values at 250 K and 500 K was "reached" at a
+                # temperature outside [150, 1500] K.  Where the real property function is not strictly increasing at the
+                # solver's scale (thermo's noisy liquid entropy) this is the known solver failure in another guise:
+                # the iteration wandered off instead of raising.
+                # the iteration wandered off instead of raising.  That excuse needs the SOLVER to be at fault (its last call
+                # raised or returned a temperature that does not reproduce the target it was given) or the value read back
+                # to be right (a consistent answer at an unphysical temperature after the phase flip); a setter that
+                # misuses sound solver answers is not excused.
+                mono = micro_monotone(s, kind, x, None if is_multi(s) else ph0) if kind == 'S' else None
+                excused = mono is False and (readback_ok or last_call_unsound(rec, RTOL[tk]))
+                sig = ('set:raised:S:model-not-monotone' if excused else
+                       f'set:readback:{kind}' if not readback_ok else f'set:left-domain:{kind}')
+                fail(sig, f'assigned {kind} = {x!r} to a {ph0} stream, read back {back!r} '
+                          f'(T {T0!r} → {s.T!r}, phase now {ph_of(s)})'
+                          + (' (the property function is not strictly increasing at the 2e-6 K scale around the solution)'
+                             if excused else ''))
             if out == 'ok':
-                if not abs(back - x) <= tol:
-                    fail(f'set:readback:{kind}', f'assigned {kind} = {x!r} to a {ph0} stream, read back {back!r} '
-                                                 f'(T {T0!r} → {s.T!r}, phase now {ph_of(s)})')
                 # the solver's own T_tol; where liquid entropy is involved, the float noise of thermo's
                 # liquid entropy integral (the rtol of the S hypothesis) divided by the slope dS/dT
                 Ttol = 1e-6
@@ -473,11 +549,18 @@ def run_ops(ops):
                 # function at the 1e-3 J/mol/K scale, on which the Aitken / secant iteration stalls (y1 == y0) or jumps
                 # out of range.  Where the real property function is not strictly increasing at the solver's scale the
                 # failure gets its own signature (hypothesis unmet; root cause outside thermosteam).
+                _TSTAR[0] = None
                 mono = micro_monotone(s, kind, x, None if is_multi(s) else ph0)
-                fail(f'set:raised:{kind}' + (':model-not-monotone' if mono is False else ''),
+                # a second, rarer circumstance (about 1 in 6000 enthalpy targets, liquids holding propane): the property
+                # function is smooth and increasing, but the Aitken-accelerated Newton iteration, started more than 120 K
+                # away from the solution with a heat capacity that varies by a factor 2 on the way, overshoots below the
+                # range of the property models, which raise
+                far = mono is True and _TSTAR[0] is not None and abs(_TSTAR[0] - T0) > 120.0
+                fail('set:raised:far-start' if far else f'set:raised:{kind}' + (':model-not-monotone' if mono is False else ''),
                      f'assigning {kind} = {x!r} (between the values at 250 K and 500 K) to a {ph0} stream '
                      f'at T = {T0!r} raised' + (' (the property function is not strictly increasing at the 2e-6 K scale '
-                                                'around the solution)' if mono is False else ''))
+                                                'around the solution)' if mono is False else
+                                                f' (the solution lies at {_TSTAR[0]!r} K, more than 120 K away)' if far else ''))
         else:
             raise ValueError('unknown op ' + line)
     return model_in, outs, failures, sorted(tags), nontrivial
@@ -514,7 +597,7 @@ def compare(impl, model):
             x, y = from_fbits(va[1]), from_fbits(vb[1])
             if not (abs(x - y) <= (from_fbits(a['tolH']) if va[0] == 'H' else 0.0)): return False
             if from_fbits(va[2]) != from_fbits(vb[2]): return False
-        if a['out'] == 'ok' and dom:
+        if a['out'] == 'ok' and dom and a.get('hyp') == 'ok':     # no read-back promise once the solver hypothesis is unmet
             Ha, Hb = from_fbits(a['H']), from_fbits(b['H'])
             if not (abs(Ha - Hb) <= from_fbits(a['tolH'])): return False
     except (KeyError, ValueError, AssertionError):
@@ -542,10 +625,13 @@ def model_tags(line):
 def r6(x): return repr(float(f'{x:.6g}'))
 
 
-def gen_flows(rng, empty=False):
+def gen_flows(rng, empty=False, trace=False):
+    """flows in kmol/hr; `trace`: a non-empty stream of about 1e-9..1e-8 kmol/hr in all (heat-capacity flow below
+    1e-6 kJ/hr/K): still inside the property's quantifier"""
     if empty: return ','.join(['0'] * len(CHEMS))
-    fl = [0.0 if rng.random() < 0.45 else float(f'{rng.uniform(0.1, 50):.4g}') for _ in CHEMS]
-    if not any(fl): fl[rng.randrange(len(CHEMS))] = float(f'{rng.uniform(0.1, 50):.4g}')
+    scale = rng.choice([1e-10, 3e-10, 1e-9]) if trace else 1.0
+    fl = [0.0 if rng.random() < 0.45 else float(f'{rng.uniform(0.1, 50) * scale:.4g}') for _ in CHEMS]
+    if not any(fl): fl[rng.randrange(len(CHEMS))] = float(f'{rng.uniform(0.1, 50) * scale:.4g}')
     return ','.join(repr(x) for x in fl)
 
 
@@ -557,25 +643,26 @@ def nobj(ops):
     return sum(1 for o in ops if o.split(' ')[0] in ('S', 'M', 'MP', 'Q', 'W', 'N', 'sub'))
 
 
-def gen_stream(rng, ops, empty=None):
+def gen_stream(rng, ops, empty=None, trace=False):
     """append a stream-creating op; returns the object index (objects are numbered in creation order)"""
     if empty is None: empty = rng.random() < 0.15
     r = rng.random()
-    if r < 0.03:
-        return gen_multi(rng, ops, empty)
+    if r < 0.04:
+        return gen_multi(rng, ops, empty, trace)
     if r < 0.13:
-        fg = gen_flows(rng, empty or rng.random() < 0.15)
-        fl = gen_flows(rng, empty or rng.random() < 0.15)
+        fg = gen_flows(rng, empty or rng.random() < 0.15, trace)
+        fl = gen_flows(rng, empty or rng.random() < 0.15, trace)
         ops.append(f'M {gen_T(rng)} {gen_P(rng)} {fg}|{fl}')
     else:
-        ops.append(f'S {"l" if r < 0.58 else "g"} {gen_T(rng)} {gen_P(rng)} {gen_flows(rng, empty)}')
+        ph = 'l' if r < 0.55 else 'L' if r < 0.60 else 'g'              # 'L': a second liquid phase (organic / extract)
+        ops.append(f'S {ph} {gen_T(rng)} {gen_P(rng)} {gen_flows(rng, empty, trace)}')
     return nobj(ops) - 1
 
 
-def gen_multi(rng, ops, empty):
-    """a MultiStream over a phase tuple other than the usual ('g', 'l') as well"""
-    phs = rng.choice(['gl', 'gl', 'ls', 'gs', 'gls'])
-    rows = '|'.join(gen_flows(rng, empty or rng.random() < 0.3) for _ in phs)
+def gen_multi(rng, ops, empty, trace=False):
+    """a MultiStream over a phase tuple other than the usual ('g', 'l') as well, two liquid phases included"""
+    phs = rng.choice(['gl', 'gl', 'ls', 'gs', 'gls', 'lL', 'lL', 'glL'])
+    rows = '|'.join(gen_flows(rng, empty or rng.random() < 0.3, trace) for _ in phs)
     ops.append(f'MP {phs} {gen_T(rng) if not empty else "298.15"} {gen_P(rng) if not empty else "101325.0"} {rows}')
     return nobj(ops) - 1
 
@@ -597,7 +684,8 @@ def gen_history(rng):
     """3-6 operations on ONE receiver: mix, assign, mix again with the receiver among the inlets, separate, assign ... —
     every step is judged by the energy / pressure / read-back oracles; state left behind by one call is the next call's input"""
     ops = []
-    pool = [gen_stream(rng, ops, empty=False) for _ in range(rng.choice([2, 3]))]
+    trace = rng.random() < 0.05
+    pool = [gen_stream(rng, ops, empty=False, trace=trace) for _ in range(rng.choice([2, 3]))]
     r = rng.random()
     if r < 0.6: recv = add_obj(ops, f'S {rng.choice("lg")} 298.15 101325.0 {gen_flows(rng, True)}')
     elif r < 0.8: recv = gen_multi(rng, ops, True)
@@ -610,7 +698,7 @@ def gen_history(rng):
             ins = []
             if rng.random() < 0.6: ins.append(recv)
             for _ in range(rng.choice([1, 1, 2])):
-                ins.append(rng.choice(pool) if rng.random() < 0.5 else gen_stream(rng, ops, empty=rng.random() < 0.1))
+                ins.append(rng.choice(pool) if rng.random() < 0.5 else gen_stream(rng, ops, empty=rng.random() < 0.1, trace=trace))
             if rng.random() < 0.15: ins.append(add_obj(ops, f'Q {r6(rng.uniform(-2e4, 2e4))}'))
             rng.shuffle(ins)
             mode, q = gen_Q(rng, sane=True)
@@ -647,9 +735,10 @@ def gen_set(rng, ops, target):
 def gen_case(rng):
     ops = []
     n = rng.choice([1, 1, 2, 2, 2, 3, 3, 4, 5])
-    ins = [gen_stream(rng, ops) for _ in range(n)]
+    trace = rng.random() < 0.07               # every stream of the case carries a trace flow
+    ins = [gen_stream(rng, ops, trace=trace) for _ in range(n)]
     if all(all(float(x) == 0 for x in re.split('[,|]', o.split(' ')[-1])) for o in ops):
-        ins.append(gen_stream(rng, ops, empty=False))       # "non-empty inlet sets"
+        ins.append(gen_stream(rng, ops, empty=False, trace=trace))       # "non-empty inlet sets"
     streams = list(ins)
     r = rng.random()
     if r < 0.15: ins.append(add_obj(ops, f'Q {r6(rng.uniform(-2e4, 2e4))}'))
@@ -659,7 +748,7 @@ def gen_case(rng):
     # receiver
     r = rng.random()
     if r < 0.55: recv = add_obj(ops, f'S {rng.choice("lg")} 298.15 101325.0 {gen_flows(rng, True)}')
-    elif r < 0.65: recv = add_obj(ops, f'S {rng.choice("lg")} {gen_T(rng)} {gen_P(rng)} {gen_flows(rng)}')
+    elif r < 0.65: recv = add_obj(ops, f'S {rng.choice("lg")} {gen_T(rng)} {gen_P(rng)} {gen_flows(rng, trace=trace)}')
     elif r < 0.70: recv = add_obj(ops, f'M 298.15 101325.0 {gen_flows(rng, True)}|{gen_flows(rng, True)}')
     elif r < 0.78: recv = gen_multi(rng, ops, rng.random() < 0.7)
     else: recv = rng.choice(streams)
@@ -668,7 +757,7 @@ def gen_case(rng):
     elif r < 0.88: mode, q = 'dT', r6(rng.uniform(-40, 40))
     elif r < 0.95: mode, q = 'abs', r6(rng.uniform(-3e4, 3e4))
     else: mode, q = 'huge', r6(rng.choice([1e9, -1e9, -3e7, 1e8]))
-    cp = '1' if rng.random() < 0.10 else '0'
+    cp = '1' if rng.random() < (0.10 if not any(ops[i].startswith('S L') for i in range(len(ops))) else 0.5) else '0'
     ops.append(f'mix {recv} {",".join(map(str, ins))} {mode} {q} {cp} {gen_flags(rng)}'.rstrip())
     # assignments and separations afterwards
     cand = streams + [recv]
